@@ -40,7 +40,7 @@ CONF = {
                 big=[("big", 80, 1000), ("kinds3", 300, 3000)], enum=True),
     "C05": dict(prefixes=("C05.",), builds=("pure",),
                 model=[("kinds3", 500, 5000), ("faults", 300, 3000), ("sync", 250, 2500), ("spawn", 200, 2000),
-                       ("syncfaults", 150, 2000)],
+                       ("syncfaults", 150, 2000), ("throw", 250, 2500)],
                 big=[("kinds3", 400, 4000), ("big", 40, 600)], enum=True),
     "C06": dict(prefixes=("C06.",), builds=("pure",),
                 model=[("ctx", 400, 4000), ("ctxsync", 300, 3000), ("ctxfaults", 300, 3000), ("nonasync", 300, 3000),
@@ -50,7 +50,7 @@ CONF = {
                 model=[("override", 500, 5000), ("overridesync", 350, 3500), ("overridefaults", 350, 3500), ("ctx", 150, 1500)],
                 big=[("overridesync", 300, 3000), ("overridefaults", 300, 3000)]),
     "C08": dict(prefixes=("C08.",), builds=("pure",),
-                model=[("session", 400, 4000), ("syncfaults", 200, 2500), ("overflow", 300, 3000), ("sync", 150, 1500)],
+                model=[("session", 400, 4000), ("syncfaults", 200, 2500), ("overflow", 300, 3000), ("sync", 150, 1500), ("throw", 250, 2500)],
                 monitor_only=[("sessionfaulty", 400, 4000), ("faultyctx", 250, 2500), ("faultysync", 250, 2500)],
                 big=[("session", 300, 3000)], fresh=True),
 }
